@@ -129,11 +129,9 @@ func execGreedy(g *graph.DGraph, params graph.Params) {
 	}
 
 	// reverse edges that point right
-	for _, n := range g.Nodes {
-		for _, e := range n.Out {
-			if p.arcdiag[n] > p.arcdiag[e.To] {
-				e.Reverse()
-			}
+	for _, e := range g.Edges {
+		if p.arcdiag[e.From] > p.arcdiag[e.To] {
+			e.Reverse()
 		}
 	}
 }
